@@ -1,0 +1,57 @@
+//go:build verif
+
+// Contracts of the IndexMapping interface, checked by /verif (govc). Comment-only: this file adds no code.
+// Mapping objects are immutable after construction: their behaviour is described by pure functions of the object.
+
+package mapping
+
+//@ mode ints=wrap floats=real
+
+// abstract behaviour of a mapping object m
+//@ fun MIdx(m IndexMapping, v real) int
+//@ fun MLB(m IndexMapping, i int) real
+//@ fun MVal(m IndexMapping, i int) real
+//@ fun MAlpha(m IndexMapping) real
+//@ fun MMin(m IndexMapping) real
+//@ fun MMax(m IndexMapping) real
+//@ fun MEq(a IndexMapping, b IndexMapping) bool
+
+// The interface contract every mapping must satisfy (C03): bounds are positive and increasing (I1), every
+// indexable value lies between the bounds of its bin and its index fits 32 bits (I2), the representative value is
+// the alpha-midpoint of the bin (I4), consecutive bounds are at most a factor (1+alpha)/(1-alpha) apart (I5).
+//@ pred MapOK(m IndexMapping) := m != nil && 0.0 < MAlpha(m) && MAlpha(m) < 1.0 && 0.0 < MMin(m) && MMin(m) <= MMax(m) && (forall i int :: 0.0 < MLB(m, i) && MLB(m, i) < MLB(m, i + 1)) && (forall v real :: MMin(m) <= v && v <= MMax(m) ==> in32(MIdx(m, v)) && MLB(m, MIdx(m, v)) <= v && v <= MLB(m, MIdx(m, v) + 1)) && (forall i int :: MVal(m, i) == MLB(m, i) * (1.0 + MAlpha(m))) && (forall i int :: MLB(m, i + 1) * (1.0 - MAlpha(m)) <= MLB(m, i) * (1.0 + MAlpha(m)))
+
+//@ func IndexMapping.Index
+//@   serves C03 C01 C13
+//@   requires MapOK(this) && MMin(this) <= value && value <= MMax(this)
+//@   ensures result == MIdx(this, value) && in32(result)
+
+//@ func IndexMapping.Value
+//@   serves C03 C01
+//@   requires MapOK(this)
+//@   ensures result == MVal(this, index)
+
+//@ func IndexMapping.LowerBound
+//@   serves C03 C17
+//@   requires MapOK(this)
+//@   ensures result == MLB(this, index)
+
+//@ func IndexMapping.RelativeAccuracy
+//@   serves C03
+//@   requires MapOK(this)
+//@   ensures result == MAlpha(this)
+
+//@ func IndexMapping.MinIndexableValue
+//@   serves C03 C13
+//@   requires MapOK(this)
+//@   ensures result == MMin(this)
+
+//@ func IndexMapping.MaxIndexableValue
+//@   serves C03 C13
+//@   requires MapOK(this)
+//@   ensures result == MMax(this)
+
+//@ func IndexMapping.Equals
+//@   serves C19 C13
+//@   requires this != nil
+//@   ensures result == MEq(this, other)
